@@ -219,13 +219,32 @@ ROUND4 = {
 }
 
 
+ROUND5 = {
+    "C01": " Forced values (instrument.Steer): a few PRF outputs / os.urandom draws / caller keywords and identifiers begin or end with pickle, JSON, white-space and padding patterns. Keywords taken from the scheme's own PRF inputs during an earlier setup become real keywords. Every capacity above its default with a database the default could not hold (SSE-1 with 2^17 cells and a list of more than 65536 postings). The caller scribbles on every result it is handed.",
+    "C02": " The same forced values and scribbled results; byte strings the scheme evaluates again in a second setup (computable names) are searched as absent keywords.",
+    "C03": " A steered-values shard counts forced values that reach the wire; array-edge databases (255/256/257 blocks).",
+    "C04": " The second build is also made by a fresh scheme object with the key reloaded from bytes, in twin interpreters (two fresh processes that agree on the wall-clock second, pid, hash seed) and with blocks of several KiB.",
+    "C05": " One database dict indexed by three threads at the same moment (own scheme objects and keys, forced switch points): shapes as when built alone.",
+    "C06": " Sortedness is also judged on the index deserialize() restores and on the byte offsets of the labels in the serialized index; PiBas identifiers of mixed lengths; placement compared across twin interpreters.",
+    "C07": " The single-search baseline comes from a fresh scheme object, a private deserialized index and a token rebuilt from bytes.",
+    "C09": " The server is started through the repository's own run_server; configuration uploads of exactly k*65536+d bytes under a wire conservation monitor (sent = received, byte for byte); two sibling services of one scheme on one server; a server restart between the two uploads.",
+    "C10": " Searches ask three different questions with the token_digest field constant, real or omitted; a restart of the server process is a symbol (every 4-sequence that contains one).",
+    "C11": " Invalid configurations include twins that compare equal to a valid one but are typed differently (32.0, True).",
+    "C13": " Every crash point is run twice: with writes that reach the file at once and with writes left in the interpreter's buffer until the code flushes or closes (a kill loses them).",
+    "C14": " Declared-length objects are all built first and stay alive while each is used; one-sided declarations; a fresh cipher object per encryption up to 70 KB; twin interpreters.",
+    "C15": " Key widths that are not whole bytes (1 to 257 bits) with the top bit set.",
+    "C19": " Quick tier: 56000 sequences.",
+    "C20": " A refused create()/from_dict() over an existing path leaves the stored dictionary byte for byte; quick tier: 35000 sequences.",
+}
+
+
 def main():
     checks = []
     for pid in ALL:
         if pid not in CHECKS:
             continue
         cat, tech, text, note, ref = CHECKS[pid]
-        text = text + ROUND3.get(pid, "") + ROUND4.get(pid, "")
+        text = text + ROUND3.get(pid, "") + ROUND4.get(pid, "") + ROUND5.get(pid, "")
         checks.append({
             "property_id": pid,
             "quick_cmd": f"./check {pid} quick",
